@@ -48,6 +48,7 @@ type Report struct {
 	VerifDir    string
 	Quiet       bool
 	fatal       []string
+	keyCount    map[string]int
 }
 
 // New starts a report.
@@ -64,6 +65,15 @@ func (r *Report) add(o Outcome, ruleID, construct, site, detail string) {
 	key := ruleID
 	if construct != "" {
 		key = ruleID + "/" + construct
+	}
+	// same (rule, construct) decided more than once (e.g. two accesses in one function):
+	// number the later ones so that keys stay unique and order-stable
+	if r.keyCount == nil {
+		r.keyCount = map[string]int{}
+	}
+	r.keyCount[key]++
+	if n := r.keyCount[key]; n > 1 {
+		key = fmt.Sprintf("%s#%d", key, n)
 	}
 	r.Obs = append(r.Obs, Ob{Key: key, Rule: r.rules[ruleID], Site: site, Outcome: o, Detail: detail})
 }
